@@ -76,6 +76,9 @@ Proof. exact format6_shape. Qed.
 Theorem c05_render_plain : forall p, shape_ok p = true -> plain_decimal (render p) = true.
 Proof. exact render_plain. Qed.
 
+Theorem c05_format6_plain : forall c x, cfg_base_ok c = true -> carved c x = false -> plain_decimal (format6 c x) = true.
+Proof. exact format6_plain_gen. Qed.
+
 (** the carved-out class is exactly the "-0" output *)
 Theorem c05_carved_prints_negative_zero : forall c x, cfg_base_ok c = true -> carved c x = true ->
   format6 c x = [45; 48]%N.
